@@ -479,11 +479,22 @@ theorem C13_rejected_uri (urlOk : Bytes → Bool) (pre : List Bytes) (bad : Byte
   cases e <;> simp [End.isErr] at h2
   exact ⟨_, rfl⟩
 
-/-- scenario weights (`SpreadNames` + `decodeAmmo`, http and grpc): every list of weights whose announced number of copies
-fits in memory - an error, or one count ≥ 0 per scenario; in particular no division by zero and no negative `make` -/
-theorem C13_no_panic_spread (ws : List Int) (hmem : sumInt (ws.map normWeight) * 8 ≤ memCap) :
-    (spread true ws).returns = true := by
-  rcases spread_fixed ws hmem with h | ⟨cs, h, _⟩ <;> rw [h] <;> simp [Res.returns, Res.isPanic, Res.isFatal]
+/-- scenario weights (`SpreadNames` + `CheckSpread` + `decodeAmmo`, http and grpc; since 4cfc662 with NO assumption about memory):
+EVERY list of weights gives an error or one count per scenario; no division by zero, no negative or absurd `make` -/
+theorem C13_no_panic_spread (ws : List Int) : (spread true ws).returns = true := by
+  rcases spread_fixed ws with ⟨c, h⟩ | ⟨cs, h, _⟩ <;> rw [h] <;> simp [Res.returns, Res.isPanic, Res.isFatal]
+
+/-- what is allocated from the weights is bounded by `MaxSpreadSize`, whatever the weights announce: every count lies in
+`[0, MaxSpreadSize]`, and (with fewer than 2^39 scenarios, so that a Go int cannot wrap) so does their sum = the capacity of
+the slice and the number of ammo appended -/
+theorem C13_spread_bounded (ws cs : List Int) (h : spread true ws = .ok cs) :
+    cs.length = ws.length ∧ (∀ c ∈ cs, 0 ≤ c ∧ c ≤ maxSpreadSize) ∧
+    (ws.length < 549755813888 → sumInt cs ≤ maxSpreadSize) := by
+  refine ⟨?_, ?_, spread_fixed_total ws cs h⟩
+  all_goals
+    rcases spread_fixed ws with ⟨c, hc⟩ | ⟨cs', h', hl, hb, _⟩
+    · rw [hc] at h; cases h
+    · rw [h'] at h; cases h; first | exact hl | exact hb
 
 theorem C13_rejected_negative_weight (ws : List Int) (w : Int) (hw : w ∈ ws) (hneg : w < 0) :
     spread true ws = .err "weight" := spread_fixed_neg ws ⟨w, hw, hneg⟩
@@ -493,9 +504,24 @@ theorem C13_spread_counts (ws : List Int) (h : ∀ w ∈ ws, ¬ w < 0) :
     ∃ cs, spreadCounts ws = .ok cs ∧ cs.length = ws.length ∧ (∀ c ∈ cs, 0 ≤ c) ∧ sumInt cs ≤ sumInt (ws.map normWeight) :=
   spreadCounts_nonneg ws h
 
-/-- `randString(n, letters)`: every length that fits in memory - an error for a negative one, else that many letters -/
-theorem C13_no_panic_randString (n : Int) (hmem : n * 4 ≤ memCap) : (randStringLen true n).returns = true := by
-  rcases randStringLen_fixed n hmem with ⟨_, h⟩ | ⟨_, h⟩ | ⟨_, h⟩ <;> rw [h] <;> simp [Res.returns, Res.isPanic, Res.isFatal]
+/-- `randString(n, letters)` (since 28b7d1e with NO assumption about memory): EVERY announced length gives an error or
+that many letters -/
+theorem C13_no_panic_randString (n : Int) : (randStringLen true n).returns = true := by
+  rcases randStringLen_fixed n with ⟨_, h⟩ | ⟨_, h⟩ | ⟨_, _, h⟩ | ⟨_, h⟩ <;> rw [h] <;> simp [Res.returns, Res.isPanic, Res.isFatal]
+
+/-- what `randString` allocates is bounded by `maxRandStringLength`, whatever length is announced; a longer one is refused -/
+theorem C13_randString_bounded (n : Int) :
+    (∀ k, randStringLen true n = .ok k → (k : Int) ≤ maxRandStringLength) ∧
+    (maxRandStringLength < n → randStringLen true n = .err "length") := by
+  rcases randStringLen_fixed n with ⟨h0, h⟩ | ⟨h0, h⟩ | ⟨h0, h1, h⟩ | ⟨h0, h⟩
+  · exact ⟨fun k hk => (by rw [h] at hk; cases hk), fun _ => h⟩
+  · refine ⟨fun k hk => ?_, fun hb => ?_⟩
+    · rw [h] at hk; cases hk; decide
+    · subst h0; revert hb; decide
+  · refine ⟨fun k hk => ?_, fun hb => ?_⟩
+    · rw [h] at hk; cases hk; omega
+    · omega
+  · exact ⟨fun k hk => (by rw [h] at hk; cases hk), fun _ => h⟩
 
 theorem C13_rejected_negative_length (n : Int) (h : n < 0) : randStringLen true n = .err "length" := by
   unfold randStringLen
@@ -913,8 +939,8 @@ def C13_no_panic_statement (fixed : Bool) : Prop :=
   (∀ (env : Bytes → Option Bytes) (fileOf : Bytes → Option (List Bytes)) (s : Bytes), (resolveTags fixed env fileOf s).returns = true) ∧
   (∀ (f t : Int) (rnd : Nat), (randInt fixed f t rnd).returns = true) ∧
   (∀ p : PoolsVal, (massagePools fixed p).returns = true) ∧
-  (∀ ws : List Int, sumInt (ws.map normWeight) * 8 ≤ memCap → (spread fixed ws).returns = true) ∧
-  (∀ n : Int, n * 4 ≤ memCap → (randStringLen fixed n).returns = true) ∧
+  (∀ ws : List Int, (spread fixed ws).returns = true) ∧
+  (∀ n : Int, (randStringLen fixed n).returns = true) ∧
   (∀ site : NullSite, (nullItem fixed site).returns = true ∧ nilPluginLeft fixed site = false)
 
 /-- the parts of the code that needed no repair -/
@@ -1088,12 +1114,12 @@ theorem C13_no_panic_readConfig_counterexample : ¬ ∀ p : PoolsVal, (massagePo
 
 /-- two scenarios with weights -5 and 1: `make([]*Scenario, 0, -4)` -/
 theorem C13_no_panic_spread_counterexample :
-    ¬ ∀ ws : List Int, sumInt (ws.map normWeight) * 8 ≤ memCap → (spread false ws).returns = true := by
-  intro h; have := h [-5, 1] (by decide); revert this; decide
+    ¬ ∀ ws : List Int, (spread false ws).returns = true := by
+  intro h; have := h [-5, 1]; revert this; decide
 
 /-- `randString(-1)`: `make([]rune, -1)` -/
-theorem C13_no_panic_randString_counterexample : ¬ ∀ n : Int, n * 4 ≤ memCap → (randStringLen false n).returns = true := by
-  intro h; have := h (-1) (by decide); revert this; decide
+theorem C13_no_panic_randString_counterexample : ¬ ∀ n : Int, (randStringLen false n).returns = true := by
+  intro h; have := h (-1); revert this; decide
 
 /-- `variable_sources: [null]`: `source.Init()` on a nil interface; `postprocessors: [null]`: a nil plugin is left for the gun -/
 theorem C13_no_panic_nullItem_counterexample :
